@@ -287,6 +287,16 @@ def apply_model(m: AclM, op: dict) -> Expect:  # noqa: C901
                 if not b.grouped:
                     b.seq = r.seq
         return Expect(m)
+    if k == "set_ports":
+        if n:
+            b = m.blocks[op["i"] % n]
+            if b.rules:
+                r = b.rules[op["j"] % len(b.rules)]
+                if r.kind == "ace":
+                    pm = r.sport if op["side"] == "src" else r.dport
+                    if pm is not None and pm.op == op["operator"]:
+                        pm.operands = tuple(op["items"])
+        return Expect(m)
     if k == "set_note":
         return Expect(m)
     if k == "set_remark_text":
